@@ -1628,6 +1628,12 @@ async def _run_proc_ops(ops):
             if not had and any((_abs_event(x) or [None])[0] == 2 and _abs_event(x)[1] == 0 for x in sink.packets[seen:]) \
                     and cut_addr not in p.le_connections:
                 lost[0] += 1
+            if not had and not any((_abs_event(x) or [None])[0] == 2 for x in sink.packets[seen:]):
+                # the peer advertised, no link to it existed: a request accepted for it can no longer
+                # count as "waiting for the advertisement"
+                for e in ledger:
+                    if e[0] == 'le-create' and e[1] == o[1] and not e[2]:
+                        e[3] = False
         elif kind == 'PeerAccept':
             p = peers[o[1]]
             reqs = [x for x in p.test_sink.packets if event_code(x) == (0x04, None)]
@@ -1665,6 +1671,10 @@ async def _run_proc_ops(ops):
             if ev is None or ev[0] not in (0, 1) or not issued.get(ev[1]):
                 continue
             kind_i, oi = issued[ev[1]].pop(0)       # replies come in command order
+            if kind_i == 'LeCancel' and ev[0] == 1 and ev[2] == 0x0C:
+                for e in ledger:
+                    if e[0] == 'le-create' and not e[2]:
+                        e[3] = False        # nothing pending any more, and no completion event was seen
             if ev[0] == 0 and ev[2] == 0:
                 if kind_i == 'LeCreate':
                     ledger.append(['le-create', oi[2], False, True])
@@ -1743,6 +1753,16 @@ def campaign_proc_model(ctx):
                                                     ['Disconnect', 1]]]],
         [['burst', [['ClassicCreate', 3], ['ClassicCreate', 3], ['RemoteName', 3], ['LeCreate', 1, 2], ['LeCancel']]],
          ['PeerAccept', 3], ['burst', [['Disconnect', 1], ['ClassicCreate', 3]]]],
+    ]
+    # seeded C03-g: a second LE Create Connection (legacy / extended) towards a peer that is still connected,
+    # that peer advertises while the old link is up; then (i) the old link is dropped and the peer advertises
+    # again, (ii) the host cancels: exactly one LE Connection Complete concludes the accepted request
+    cases += [
+        [['LeCreate', 0, 2], ['Adv', 2], ['LeCreate', 1, 2], ['Adv', 2], ['Disconnect', 1], ['Adv', 2], ['ReadFeat', 1]],
+        [['LeCreate', 1, 2], ['Adv', 2], ['LeCreate', 0, 2], ['Adv', 2], ['LeCancel'], ['LeCancel']],
+        [['LeCreate', 0, 3], ['Adv', 3], ['LeCreate', 0, 3], ['Adv', 3], ['Adv', 3], ['PeerDisconnect', 3], ['Adv', 3]],
+        [['LeCreate', 1, 2], ['Adv', 2], ['LeCreate', 1, 2], ['Adv', 2], ['LeCreate', 0, 3], ['LeCancel'], ['LeCreate', 0, 3],
+         ['Adv', 3]],
     ]
     # D06d: the advertiser stops while the ConnectInd is in flight; two centrals wait for one advertiser
     cases += [
